@@ -1,7 +1,7 @@
 """C01  Formatting preserves program meaning (compile equivalence).
 
 Domain   programs: Hypothesis-generated C programs (gcc -x c -std=gnu11), C++ translation units (g++ -std=gnu++17) and Java classes
-         (javac -g:none; class files compared) rendered by the
+         (javac -g:none; class files compared) and Objective-C root classes without Foundation (clang -x objective-c) rendered by the
          layout engine with comments in trivia slots, plus the corpus files that compile stand-alone (decided at run time; files
          using __LINE__ / __FILE__ / __COUNTER__ / assert are left out because their object code legitimately depends on layout).
          configurations: (i) every option of the classes whitespace / mod_ / cmt_ singly at every enumerated / boundary value
@@ -18,12 +18,13 @@ import random
 import re
 import subprocess
 
-from vf import core, corpus, family, gen_c, gen_cpp, gen_java, layout, registry, run
+from vf import core, corpus, family, gen_c, gen_cpp, gen_java, gen_objc, layout, registry, run
 
 BUILDS = ('fast',)
 LEVEL = 'translation_validation'
 CLASSES = ('WS', 'MOD', 'CMT')
-CC = {'C': ['gcc', '-x', 'c', '-std=gnu11'], 'CPP': ['g++', '-x', 'c++', '-std=gnu++17']}
+CC = {'C': ['gcc', '-x', 'c', '-std=gnu11'], 'CPP': ['g++', '-x', 'c++', '-std=gnu++17'],
+      'OC': ['clang', '-x', 'objective-c', '-fblocks', '-fobjc-exceptions']}
 LAYOUT_DEPENDENT = re.compile(rb'__LINE__|__FILE__|__COUNTER__|__DATE__|__TIME__|\bassert\b|__PRETTY_FUNCTION__|source_location')
 
 
@@ -157,6 +158,11 @@ def to_case(v):
     return family.Case(src.encode('utf-8'), lang, cfgd, {'kind': 'generated', 'cfgkind': kind, 'layout_seed': lseed, 'cfg_seed': cseed})
 
 
+def make_strategy_objc():
+    from hypothesis import strategies as st
+    return st.tuples(gen_objc.objc_program(max_snippets=3).map(lambda t: ('OC', t)), st.integers(0, 2 ** 32 - 1), st.integers(0, 2 ** 32 - 1))
+
+
 def make_strategy_java():
     from hypothesis import strategies as st
     return st.tuples(gen_java.java_program(max_snippets=3).map(lambda t: ('JAVA', t)), st.integers(0, 2 ** 32 - 1), st.integers(0, 2 ** 32 - 1))
@@ -184,7 +190,7 @@ def main(ctx):
                 'the output bytes differ from the input and the program has >= 30 tokens; distinct by sha256(source, language, config)')
     ctx.assumptions = ['gcc/g++ -w -O1 -S from stdin emits no line information, so equal assembly text means equal object code',
                        'generated programs avoid constructs whose meaning depends on layout (__LINE__, assert, multi-token stringification)',
-                       'Objective-C is not compiled in this revision (C02-C04 cover it lexically); Java is compiled for generated programs only']
+                       'Java and Objective-C are compiled for generated programs only (corpus files of those languages need frameworks)']
     core.replay_regress(ctx, replay)
     # compilable corpus subset
     cand = [f for f in corpus.files() if f[1] in ('C', 'CPP')]
@@ -223,6 +229,7 @@ def main(ctx):
     raw = family.explore(ctx, judge, cases, batch=8)
     raw += family.hyp_explore(ctx, judge, make_strategy, to_case, shards=16, examples=(250 if quick else 6000))
     raw += family.hyp_explore(ctx, judge, make_strategy_java, to_case, shards=16, examples=(6 if quick else 150))
+    raw += family.hyp_explore(ctx, judge, make_strategy_objc, to_case, shards=16, examples=(30 if quick else 1500))
     family.triage(ctx, judge, raw, minimise_src=3000, per_cluster=1)
     ctx.extra['programs'] = ctx.evaluations
     ctx.extra['disagreements_checked'] = ctx.counts.get('raw_failures', 0)
